@@ -75,7 +75,6 @@ func traceUpdater(t *testing.T, o opts) {
 			src := ""
 			if err == nil {
 				src = hb(u.Get().src)
-				ud.builds = ud.builds // the Get above found no notification
 			}
 			emit("newupd\tu=%d\tok=%s\tsrc=%s", i, b01(err == nil), src)
 		}
